@@ -32,6 +32,7 @@ type simRegion struct {
 	name        []byte
 	addr        string
 	faults      []string // exception kinds answered to the next requests (probes included)
+	keyFaults   map[string][]string // per row key: exception kinds answered to its next requests
 	bounce      []string // hbase:meta reports these addresses in turn; all of them host the region
 	staleAddr   string   // hbase:meta still reports this previous location …
 	staleN      int      // … for this many more lookups
@@ -346,6 +347,12 @@ func (s *simConn) serve(call hrpc.Call) {
 			deliver(&pb.GetResponse{Result: &pb.Result{Exists: &t}}, nil)
 			return
 		}
+	}
+	if kf := reg.keyFaults[string(call.Key())]; len(kf) > 0 && sv.kind != "probe" {
+		reg.keyFaults[string(call.Key())] = kf[1:]
+		finish(kf[0])
+		deliver(nil, excErr(kf[0]))
+		return
 	}
 	if len(reg.faults) > 0 && !((reg.faults[0] == "FATALMARK" || strings.HasPrefix(reg.faults[0], "REQ:")) && sv.kind == "probe") {
 		k := strings.TrimPrefix(reg.faults[0], "REQ:")
